@@ -83,7 +83,32 @@ pub fn plan_attacker(w: &World, knobs: &Knobs, actor: &mut Actor, l: &Ledger) ->
             _ => (ix::collect_fees_v2(&la), "collect_fees_v2"),
         }
     };
-    match rng.below(3) {
+    match rng.below(4) {
+        3 => {
+            // a swap with the trader's own token account in a vault slot
+            if let Some(pool) = l.data(&pi.keys.whirlpool).and_then(decode::pool) {
+                let a_to_b = rng.chance(1, 2);
+                let (Some(oa), Some(ob)) = (actor.tokens.get(&pi.keys.mint_a), actor.tokens.get(&pi.keys.mint_b)) else { return flow };
+                let sa = ix::SwapAccounts { pool: pi.keys.clone(), authority: actor.wallet, owner_a: *oa, owner_b: *ob, tick_arrays: crate::gen::swap_tick_arrays(&pool, &pi.keys.whirlpool, a_to_b) };
+                let args = ix::SwapArgs { amount: 1 + rng.log_u64(40), other_amount_threshold: 0, sqrt_price_limit: 0, amount_specified_is_input: true, a_to_b };
+                let mut i = if v1_ok && rng.chance(1, 2) { ix::swap(&sa, &args) } else { ix::swap_v2(&sa, &args, &[]) };
+                // the output vault (the pool would pay the trader out of the trader's own account - or rather: not at all)
+                // or the input vault (the pool would be credited although the tokens never reach it)
+                let out_side = rng.chance(1, 2);
+                let side_a = a_to_b != out_side;
+                let (vault, own) = if side_a { (pi.keys.vault_a, *oa) } else { (pi.keys.vault_b, *ob) };
+                // only the vault slot: the owner slot keeps naming the same account
+                let mut done = false;
+                for (n, m) in i.accounts.iter_mut().enumerate() {
+                    if m.pubkey == vault && !done {
+                        let _ = n;
+                        m.pubkey = own;
+                        done = true;
+                    }
+                }
+                flow.push((tx1(i), "attacker: swap with own token account as vault".into()));
+            }
+        }
         0 => {
             // own token account in a vault slot
             let (mut i, n) = honest(rng);
